@@ -574,8 +574,8 @@ def oracle_formats(ctx, ninst=None):
             inst = make_instance(rng, "sympy", k, small=True, analytic=True)
         else:
             inst = make_instance(rng, vts[k % 3], k // 3, small=(vts[k % 3] == "sympy"))  # dim <= 6 for sympy
-        # exact symbolic evaluation is slow: total order 3 there (4 in thorough when dim <= 3), 4 (thorough) for the float types
-        N = 3 if (ctx.quick or (inst["fmt"] == "sympy" and len(inst["sub"]) > 3)) else 4
+        # exact symbolic evaluation is slow: total order 3 there (4 in thorough when dim <= 2 and <= 2 parameters), 4 (thorough) for the float types
+        N = 3 if (ctx.quick or (inst["fmt"] == "sympy" and (len(inst["sub"]) > 2 or inst["nparam"] > 2))) else 4
         tasks.append((inst, rng.getrandbits(32), N))
         if max(inst["sub"]) >= 1:
             nt.add(core.canon(inst))
